@@ -1,0 +1,14 @@
+//go:build verif
+
+// Contracts for the deductive verifier in /verif (govc). Only compiled with -tags verif.
+
+package sequence
+
+// C12: LastIndex is the last position of the revision in the sequence, -1 when it is not there.
+//@ func (*SnapSequence).LastIndex
+//@   props C12
+//@   ensures [range] -1 <= result && result < len(snapSeq.Revisions)
+//@   ensures [found] result >= 0 ==> snapSeq.Revisions[result].Snap.Revision.N == revision.N
+//@   ensures [last] forall k int :: {snapSeq.Revisions[k]} result < k && k < len(snapSeq.Revisions) ==> snapSeq.Revisions[k].Snap.Revision.N != revision.N
+//@   loop 0: invariant -1 <= i && i < len(snapSeq.Revisions)
+//@   loop 0: invariant forall k int :: {snapSeq.Revisions[k]} i < k && k < len(snapSeq.Revisions) ==> snapSeq.Revisions[k].Snap.Revision.N != revision.N
